@@ -41,6 +41,18 @@ CHECKS = {
          "DESIGN.md §3 C08",
          "Held on every executed (quote, options) pair: for options whose entries are unset, empty or exactly sized the library accepts exactly when the reference evaluator (fixed masks restated as bit lists, little-endian SVNs) accepts; for wrongly sized entries and allowed-MR_TD lists with empty entries there is no panic and no exactly-sized expectation is missed. Grids: 9 exact fields x 10 option kinds, SVN byte-order traps, every TEE_TCB_SVN component at min-1/min/min+1, MinimumTeeTcbSvn of length 0..17, all 64 XFAM and TD_ATTRIBUTES bits on two bases, RTMR lists 0..5, allowed lists 0..4; through message and raw entry points.",
          "Quotes are unsigned (policy validation does not look at signatures)."),
+ "C13": ("exploration", "runtime monitoring: the harness DER-encodes SGX extensions itself and compares the library's extraction with the generator's inputs (exact / must-error / sane classes)",
+         "DESIGN.md §3 C13",
+         "Held on every executed extension: all 16 x 256 component values, PCE SVN boundaries (all 65536 in the thorough tier), all 120 top-level orders, reversed / rotated / swapped / 1000+ random orders of the 18 TCB elements give exactly the encoded values; out-of-range and 9-byte integers, wrongly sized octet strings, wrong types, missing extension, every truncation, trailing bytes at each nesting level, wrong element / extension counts give an error; duplicates never yield a wrong value for an element present once. 500 cases also through really signed, re-parsed certificates.",
+         "Wrong-size octet strings are generated so that they are not themselves a DER OCTET STRING of the right inner size (the code unwraps that form by design)."),
+ "C15": ("fault_enumeration", "runtime monitoring: scripted recording guest device / quote provider; exhaustive device-outcome grid judged by a success predicate and request-content checks",
+         "DESIGN.md §3 C15",
+         "Held on the whole 3888-script grid (report outcome x quote outcome x status x OutLen x report data): success exactly when both requests succeed with result 0, status 0 and 0 < OutLen <= buffer size, returning exactly the first OutLen bytes the device wrote; the report request carries the caller's 64 bytes unchanged and the quote request the 1024-byte TD report, InLen 1024, Length = buffer size; every other outcome is an error without data or crash. Provider: supported => bytes and error value verbatim, called once; unsupported => device path tried (regular file / missing path); GetQuote == QuoteToProto(GetRawQuote).",
+         "The real ioctl path of LinuxDevice is only exercised up to ENOTTY on a regular file."),
+ "C17": ("exploration", "runtime monitoring: model TSM client recording every directory / index / digest operation; offline checker replays each recorded history against a register model",
+         "DESIGN.md §3 C17",
+         "Held on every executed history: invalid requests fail without any mutating operation; valid requests produce exactly one digest write of exactly the requested digest (or SHA-384 of the log) to an entry bound to the requested index, re-using an existing entry; final registers equal the SHA-384 extend chains. All single requests over the index / length / hash alphabet, all 27,930 sequences of length <= 3 over a 30-symbol alphabet (every third in the quick tier), 2000+ random histories of length 4-12 with pre-existing entries and injected MkdirTemp / WriteFile failures.",
+         "The model TSM implements the documented configfs-tsm rtmr semantics; upstream go-configfs-tsm is part of the code under observation."),
  "C14": ("exploration", "runtime monitoring: policy messages converted by the library and judged three ways (must-fail rule, reference evaluation of the message itself, directly built options) on 4 quotes each",
          "DESIGN.md §3 C14",
          "Held on every executed message: conversion fails whenever an SVN minimum exceeds 16 bits or a non-empty byte string (incl. minimum_tee_tcb_svn, RTMR and allowed-MR_TD entries) has the wrong length; every message that converts is applied to 4 quotes without panic, with the verdict of the reference evaluation of the message itself and of directly built options. Fields x {absent, empty, exact, short, long, doubled}, SVNs at 0/65535/65536/2^32-1, RTMR lists 0..5, allowed lists 0..4, nil policy and absent sub-policies, in memory and after a wire round trip.",
